@@ -2,15 +2,17 @@
    AEAD models: what registry.Primitive(dekTypeURL, dek) followed by Encrypt / Decrypt
    computes for the DEK templates whose key proto has the single field key_value
    (AesGcmKey, AesGcmSivKey, XChaCha20Poly1305Key: field 3; ChaCha20Poly1305Key: field 2):
-     internal/legacykeymanager.KeyManager.Primitive: the key proto is parsed with output
-     prefix RAW (Envelope.dek_key: tag, length, key bytes), <keytype>.NewKey checks the
+     internal/legacykeymanager.KeyManager.Primitive: the key proto is unmarshalled as protobuf does
+     (ProtoWire.decode of { uint32 version = 1; bytes key_value = 3 (2 for ChaCha20-Poly1305) }: any
+     encoding of the message - explicit zero version, unknown fields, long varints), the version must
+     be 0, it is parsed with output prefix RAW, <keytype>.NewKey checks the
      key size (AES-GCM / AES-GCM-SIV: 16 or 32 bytes, (X)ChaCha20-Poly1305: 32), and the
      full primitive of the key type is built with an EMPTY output prefix.
    An unparsable or wrongly sized DEK is an error.  The AES-CTR-HMAC DEK (a nested
    proto) is covered only by the generic lifting theorems of proofs/EnvelopeProofs2.v.
    No proofs here. *)
 From Coq Require Import List NArith Bool Arith.
-From Tink Require Import Bytes AeadFrame GcmSiv Envelope.
+From Tink Require Import Bytes AeadFrame GcmSiv Envelope ProtoWire.
 Import ListNotations.
 Open Scope N_scope.
 
@@ -30,11 +32,18 @@ Definition dek_size_ok (kd : dek_kind) (k : bytes) : bool :=
 Definition dek_ivlen (kd : dek_kind) : nat :=
   match kd with DekXchacha => 24%nat | _ => 12%nat end.
 
+(* the key proto of the data-key types: version (1), key_value (3; ChaCha20-Poly1305: 2) *)
+Definition dek_field (kd : dek_kind) : N := match kd with DekChacha => 2 | _ => 3 end.
+Definition dek_schema (kd : dek_kind) : schema := SCons 1 TU32 (SCons (dek_field kd) TBytes SNil).
+Definition dk_vint (v : val) : N := match v with VInt n => n | _ => 0 end.
+Definition dk_vbytes (v : val) : bytes := match v with VBytes b => b | _ => [] end.
+
 (* the raw key of a serialised DEK, when registry.Primitive accepts it *)
 Definition dek_parse (kd : dek_kind) (dek : bytes) : option bytes :=
-  match dek_key (dek_tag kd) dek with
-  | Some k => if dek_size_ok kd k then Some k else None
-  | None => None
+  match decode (dek_schema kd) dek with
+  | Some [ver; kv] =>
+    if (dk_vint ver =? 0) && dek_size_ok kd (dk_vbytes kv) then Some (dk_vbytes kv) else None
+  | _ => None
   end.
 
 Section DEK.
